@@ -29,7 +29,8 @@ PROPS = {
     "C18": {
         "suites": ["c18"],
         "level": "proof",
-        "translators": [{"name": "series", "out": "SeriesGen.lean"}],
+        "translators": [{"name": "seriesmeth", "out": "SeriesMethGen.lean"}, {"name": "series", "out": "SeriesGen.lean"}],
+        "extra_modules": [{"module": "GeoProofs.Props.SeriesBridge", "theorems": ["Geo.SeriesBridge.numSegments", "Geo.SeriesBridge.segmentAt", "Geo.SeriesBridge.numPoints", "Geo.SeriesBridge.pointAt", "Geo.SeriesBridge.fields", "Geo.SeriesBridge.makeSeries_opts", "Geo.SeriesBridge.makeSeries_nil"]}],
         "proof_module": "GeoProofs.Props.C18All",
         "theorems": ["Geo.convex_iff", "Geo.clockwise_iff", "Geo.rect_tight", "Geo.bboxSpec_tight", "Geo.clockwiseSpec_iff_area", "Geo.numSegments_spec", "Geo.segmentAt_spec", "Geo.convexSpec_rotate", "Geo.clockwiseSpec_rotate", "Geo.convexSpec_closing", "Geo.clockwiseSpec_closing", "Geo.processPoints_rotate_convex", "Geo.processPoints_rotate_clockwise", "Geo.processPoints_closing_convex", "Geo.processPoints_closing_clockwise", "Geo.sgen_processPoints_noPanic", "Geo.sgen_processPoints_rect", "Geo.sgen_processPoints_convex", "Geo.sgen_processPoints_exact", "Geo.sgen_processPoints_exact_of_bound", "Geo.ringR1_sum", "Geo.ringR2_sum", "Geo.ringR1_partial", "Geo.ringR2_partial"],
         "trivial_sigs": {"at--"},
@@ -41,8 +42,8 @@ PROPS = {
     "C01": {
         "suites": ["c01"],
         "level": "proof",
-        "extra_modules": [{"module": "GeoProofs.Props.GlueBridge", "theorems": ["Geo.glue_polyEmpty", "Geo.glue_polyRect", "Geo.glue_polyContainsPoint", "Geo.glue_polyIntersectsPoint", "Geo.glue_lineIntersectsPoint", "Geo.glue_nil"]}],
-        "translators": [{"name": "glue", "out": "GlueGen.lean"}],
+        "extra_modules": [{"module": "GeoProofs.Props.LineBridge", "theorems": ["Geo.line_bridge_containsPoint", "Geo.line_bridge_containsPoint_noindex"]}, {"module": "GeoProofs.Props.RingBridge", "theorems": ["Geo.RingBridge.ringContainsPoint_hit_bridge", "Geo.RingBridge.ringContainsPoint_idx_bridge", "Geo.RingBridge.ringIntersectsPoint_bridge", "Geo.RingBridge.exact_rect", "Geo.RingBridge.exact_series", "Geo.RingBridge.exact_unindexed"]}, {"module": "GeoProofs.Props.GlueBridge", "theorems": ["Geo.glue_polyEmpty", "Geo.glue_polyRect", "Geo.glue_polyContainsPoint", "Geo.glue_polyIntersectsPoint", "Geo.glue_lineIntersectsPoint", "Geo.glue_nil"]}],
+        "translators": [{"name": "linewalk", "out": "LineGen.lean"}, {"name": "ring", "out": "RingGen.lean"}, {"name": "glue", "out": "GlueGen.lean"}],
         "proof_module": "GeoProofs.Props.C01All",
         "theorems": ["Geo.containsPoint_fold_perm", "Geo.ringContainsPoint_hit_iff", "Geo.ringContainsPoint_hit_iff_none", "Geo.ringContainsPoint_hit_iff_quadtree", "Geo.ringContainsPoint_idx_on", "Geo.rectRing_containsPoint_iff", "Geo.polyContainsPoint_iff", "Geo.lineContainsPoint_iff", "Geo.rectContainsPoint_iff", "Geo.ringContainsPoint_index_indep", "Geo.ringContainsPoint_hit_iff_rtree", "Geo.polyContainsPoint_iff_rtree", "Geo.lineContainsPoint_iff_rtree", "Geo.c01_leaf_point_relations", "Geo.c01_obj_point_exact", "Geo.c01_obj_point_exact_shape", "Geo.Geom.C01Cfg.member_eq", "Geo.c01Cfg_poly_none", "Geo.c01Cfg_line_none", "Geo.c01Cfg_line_dyadic", "Geo.c01Cfg_poly_dyadic", "Geo.c01_point_relations_agree", "Geo.c01_intersects_point_all", "Geo.c01_contains_point_all", "Geo.c01_point_intersects_all"],
         "trivial_sigs": set(),
@@ -55,6 +56,8 @@ PROPS = {
     "C04": {
         "suites": ["c04"],
         "level": "proof",
+        "extra_modules": [{"module": "GeoProofs.Props.SeriesBridge", "theorems": ["Geo.SeriesBridge.search", "Geo.SeriesBridge.buildIndex", "Geo.SeriesBridge.buildIndex_built", "Geo.SeriesBridge.makeSeries_opts", "Geo.SeriesBridge.makeSeries_nil", "Geo.SeriesBridge.move", "Geo.SeriesBridge.header_buildIndexBytes", "Geo.SeriesBridge.inv_makeSeries", "Geo.SeriesBridge.inv_move"]}],
+        "translators": [{"name": "seriesmeth", "out": "SeriesMethGen.lean"}],
         "proof_module": "GeoProofs.Props.C04All",
         "theorems": ["Geo.qtree_search_exact", "Geo.rtree_search_exact", "Geo.rtree_search_exact_of_NE", "Geo.rBuild_items_counterexample", "Geo.readNum_appendNum", "Geo.qSearchTree_eq_foldUntil", "Geo.qVisit_perm_filter", "Geo.qInsert_inv", "Geo.qInsert_items", "Geo.qBuild_spec", "Geo.rSearchTree_eq_foldUntil", "Geo.rVisit_eq_filter", "Geo.splitEntries_perm", "Geo.rBuild_spec'", "Geo.series_search_exact_none", "Geo.series_search_exact_quadtree", "Geo.series_search_exact_rtree", "Geo.segBox_inside_rect", "Geo.series_search_exact_rtree_dyadic", "Geo.series_search_exact_dyadic", "Geo.decF64_encF64", "Geo.rtree_search_exact_patched", "Geo.rBuild_good", "Geo.searchAny_perm", "Geo.searchAny_index_indep", "Geo.intersectsSegment_fold_perm", "Geo.ringIntersectsSegment_index_indep", "Geo.ringIntersectsSegmentS_index_indep", "Geo.ringIntersectsLine_index_indep", "Geo.ringIntersectsRing_index_indep", "Geo.lineIntersectsLine_index_indep", "Geo.lineContainsLine_index_indep", "Geo.lineContainsPoint_index_indep", "Geo.polyContainsPoint_index_indep", "Geo.polyIntersectsLine_index_indep", "Geo.polyIntersectsPoly_index_indep", "Geo.polyIntersectsRect_index_indep", "Geo.ringContainsSegment_index_indep", "Geo.ringContainsSegment_index_indep_simple", "Geo.ringContainsSegmentS_false_index_indep", "Geo.ringContainsRing_index_indep", "Geo.ringContainsLine_index_indep", "Geo.Geom.Sim.intersects", "Geo.Geom.Sim.contains", "Geo.geom_intersects_index_indep", "Geo.geom_intersects_index_indep₂", "Geo.geom_contains_index_indep", "Geo.geom_contains_index_indep₂", "Geo.geom_intersects_index_indep_sized", "Geo.geom_contains_index_indep_sized", "Geo.ringContainsSegmentS_eq_V", "Geo.ringContainsSegmentS_eq_L", "Geo.ringContainsSegment_order_dependent_counterexample", "Geo.pinched_unindexed", "Geo.ringContainsSegment_not_sim_invariant", "Geo.rtree_series_foldOn", "Geo.ring17_rOrder", "Geo.ringContainsSegment_rtree_vs_none", "Geo.ringContainsSegment_not_index_indep", "Geo.geom_contains_rtree_vs_none", "Geo.qtree_series_foldOn", "Geo.ring37_strip_order", "Geo.ringContainsSegment_quadtree_vs_none", "Geo.DF.instLawfulCarrierDbl", "Geo.DF.instSignExactSubDbl", "Geo.DF.ieee_sub_neg", "Geo.DF.ieee_sub_pos", "Geo.DF.decD_encD", "Geo.DF.qtree_search_exact_dbl", "Geo.DF.rtree_search_exact_dbl", "Geo.DF.rtree_search_exact_patched_dbl", "Geo.DF.gseries_search_exact", "Geo.DF.series_search_exact_dbl", "Geo.DF.C04_series_dbl", "Geo.DF.toFQ_sub", "Geo.DF.toFQ_mul", "Geo.DF.toFQ_mid"],
         "trivial_sigs": {"se0"},
@@ -66,8 +69,8 @@ PROPS = {
     "C02": {
         "suites": ["c02"],
         "level": "proof",
-        "extra_modules": [{"module": "GeoProofs.Props.GlueBridge", "theorems": ["Geo.glue_polyIntersectsRect", "Geo.glue_polyIntersectsLine", "Geo.glue_polyIntersectsPoly", "Geo.glue_rectIntersectsLine", "Geo.glue_rectIntersectsPoly", "Geo.glue_lineIntersectsRect", "Geo.glue_lineIntersectsPoly"]}],
-        "translators": [{"name": "glue", "out": "GlueGen.lean"}],
+        "extra_modules": [{"module": "GeoProofs.Props.LineBridge", "theorems": ["Geo.line_bridge_intersectsLine", "Geo.line_bridge_intersectsLine_noindex"]}, {"module": "GeoProofs.Props.RingBridge", "theorems": ["Geo.RingBridge.ringIntersectsSegment_bridge", "Geo.RingBridge.ringIntersectsRing_bridge", "Geo.RingBridge.ringIntersectsLine_bridge", "Geo.RingBridge.exact_rect", "Geo.RingBridge.exact_series", "Geo.RingBridge.exact_unindexed"]}, {"module": "GeoProofs.Props.GlueBridge", "theorems": ["Geo.glue_polyIntersectsRect", "Geo.glue_polyIntersectsLine", "Geo.glue_polyIntersectsPoly", "Geo.glue_rectIntersectsLine", "Geo.glue_rectIntersectsPoly", "Geo.glue_lineIntersectsRect", "Geo.glue_lineIntersectsPoly"]}],
+        "translators": [{"name": "linewalk", "out": "LineGen.lean"}, {"name": "ring", "out": "RingGen.lean"}, {"name": "glue", "out": "GlueGen.lean"}],
         "proof_module": "GeoProofs.Props.C02All",
         "theorems": ["Geo.rect_intersects_rect_iff", "Geo.rect_intersects_rect_illformed", "Geo.rect_intersects_symm", "Geo.lineIntersectsLine_iff", "Geo.lineIntersectsLine_symm", "Geo.lineIntersectsLine_iff_mk", "Geo.point_intersects_iff", "Geo.point_intersects_line_iff", "Geo.point_intersects_rect_spec", "Geo.geom_intersects_symm_pointrect", "Geo.geom_intersects_dispatch_symm", "Geo.geom_intersects_symm_partial", "Geo.ringIntersectsSegment_sound", "Geo.ringIntersectsSegment_sound_mk", "Geo.vertex_on_segment", "Geo.ringIntersectsLine_sound", "Geo.ringIntersectsRing_sound", "Geo.edge_identity", "Geo.edge_flip", "Geo.parity_add_eq_crossings", "Geo.parity_const_of_avoids", "Geo.parity_flips_of_one_proper_crossing_idx", "Geo.parity_flips_of_one_proper_crossing", "Geo.inRing_const_of_avoids", "Geo.segment_outside_of_avoids", "Geo.segment_inside_of_avoids", "Geo.region_meets_segment_iff", "Geo.ringIntersectsSegment_exact_all", "Geo.ringIntersectsSegment_exact_indexed", "Geo.ringIntersectsSegment_exact", "Geo.ringIntersectsSegment_two_edges", "Geo.rectRingIntersectsSegment_exact", "Geo.rectRing_region", "Geo.rectRing_illformed", "Geo.ringIntersectsLine_exact_all", "Geo.ringIntersectsLine_exact", "Geo.rectRingIntersectsLine_exact", "Geo.ringIntersectsRing_exact_all", "Geo.ringIntersectsRing_exact", "Geo.rectRingIntersectsRing_exact", "Geo.regions_share_iff", "Geo.spec_meets_iff", "Geo.geom_intersects_iff_noholes", "Geo.geom_intersects_exact_noholes", "Geo.geom_intersects_symm_noholes", "Geo.ringContainsRing_strict_exact", "Geo.spec_meets_iff_holes", "Geo.geom_intersects_exact_holes_of_convexOK", "Geo.geom_intersects_symm_holes_of_convexOK", "Geo.holesConvexOK_of_nonconvex", "Geo.geom_intersects_exact_holes_of_nonconvex", "Geo.IX.convexOK_rect", "Geo.IX.two_edges_of_meets", "Geo.IX.regions_disjoint_of_boundaries_out", "Geo.IX.strict_nesting_rect", "Geo.IX.rect_filled_strict", "Geo.IX.region_inside_of_boundary_inside", "Geo.convexOK_of_support", "Geo.supportOK_of_simple", "Geo.convexOK_of_simple", "Geo.holesConvexOK_of_valid", "Geo.geom_intersects_exact_holes", "Geo.geom_intersects_symm_holes", "Geo.pentagram_not_convex"],
         "trivial_sigs": set(),
@@ -79,8 +82,8 @@ PROPS = {
     "C03": {
         "suites": ["c03"],
         "level": "proof",
-        "extra_modules": [{"module": "GeoProofs.Props.GlueBridge", "theorems": ["Geo.glue_polyContainsRect", "Geo.glue_polyContainsLine", "Geo.glue_polyContainsPoly", "Geo.glue_rectContainsLine", "Geo.glue_rectContainsPoly", "Geo.glue_lineContainsRect"]}, {"module": "GeoProofs.Props.C03Convex", "theorems": ["Geo.closedRegion_convex", "Geo.closedRegion_iff_halfplanes", "Geo.ringContainsSegment_convex_flag", "Geo.ringContainsSegment_convex_exact", "Geo.ringContainsRing_convex_exact", "Geo.ringContainsLine_convex_exact", "Geo.poly_contains_exact_convex", "Geo.simpleRing_imp_ringSimple", "Geo.geom_contains_index_indep_valid", "Geo.geom_contains_index_indep_valid_sized", "Geo.plain_eq_build", "Geo.geom_contains_exact_convex_indexed", "Geo.rect_contains_exact_valid", "Geo.contains_exact_convex_receivers", "Geo.geom_contains_reflX_convex", "Geo.geom_contains_reflY_convex", "Geo.geom_contains_transpose_convex", "Geo.ringContainsRing_vertices_sound", "Geo.convex_flag_nonsimple_counterexample"]}, {"module": "GeoProofs.Props.C03Spec", "theorems": ["Geo.spec_covers_iff", "Geo.jordan_two_components", "Geo.spec_interiorPoint_strict", "Geo.spec_covers_refl", "Geo.spec_covers_trans", "Geo.spec_covers_imp_meets", "Geo.spec_covers_antisymm"]}],
-        "translators": [{"name": "glue", "out": "GlueGen.lean"}],
+        "extra_modules": [{"module": "GeoProofs.Props.LineBridge", "theorems": ["Geo.line_bridge_containsLine_O", "Geo.line_bridge_containsLine", "Geo.line_bridge_containsLine_nil", "Geo.line_bridge_containsPoly", "Geo.line_bridge_containsPoly_nil", "Geo.line_bridge_built", "Geo.line_bridge_nil", "Geo.LineGlue.lineContainsLine_eq_F", "Geo.LineGlue.lineContainsPoly_eq_F"]}, {"module": "GeoProofs.Props.RingBridge", "theorems": ["Geo.RingBridge.ringContainsSegment_bridge", "Geo.RingBridge.ringContainsRing_bridge", "Geo.RingBridge.ringContainsRing_unique", "Geo.RingBridge.ringContainsLine_bridge", "Geo.RingBridge.exact_rect", "Geo.RingBridge.exact_series", "Geo.RingBridge.exact_unindexed"]}, {"module": "GeoProofs.Props.GlueBridge", "theorems": ["Geo.glue_polyContainsRect", "Geo.glue_polyContainsLine", "Geo.glue_polyContainsPoly", "Geo.glue_rectContainsLine", "Geo.glue_rectContainsPoly", "Geo.glue_lineContainsRect"]}, {"module": "GeoProofs.Props.C03Convex", "theorems": ["Geo.closedRegion_convex", "Geo.closedRegion_iff_halfplanes", "Geo.ringContainsSegment_convex_flag", "Geo.ringContainsSegment_convex_exact", "Geo.ringContainsRing_convex_exact", "Geo.ringContainsLine_convex_exact", "Geo.poly_contains_exact_convex", "Geo.simpleRing_imp_ringSimple", "Geo.geom_contains_index_indep_valid", "Geo.geom_contains_index_indep_valid_sized", "Geo.plain_eq_build", "Geo.geom_contains_exact_convex_indexed", "Geo.rect_contains_exact_valid", "Geo.contains_exact_convex_receivers", "Geo.geom_contains_reflX_convex", "Geo.geom_contains_reflY_convex", "Geo.geom_contains_transpose_convex", "Geo.ringContainsRing_vertices_sound", "Geo.convex_flag_nonsimple_counterexample"]}, {"module": "GeoProofs.Props.C03Spec", "theorems": ["Geo.spec_covers_iff", "Geo.jordan_two_components", "Geo.spec_interiorPoint_strict", "Geo.spec_covers_refl", "Geo.spec_covers_trans", "Geo.spec_covers_imp_meets", "Geo.spec_covers_antisymm"]}],
+        "translators": [{"name": "linewalk", "out": "LineGen.lean"}, {"name": "ring", "out": "RingGen.lean"}, {"name": "glue", "out": "GlueGen.lean"}],
         "proof_module": "GeoProofs.Props.C03All",
         "theorems": ["Geo.line_walk_terminates", "Geo.line_containsLine_eq", "Geo.rect_contains_rect_iff", "Geo.rect_contains_rect_illformed", "Geo.rect_contains_point_iff", "Geo.rect_contains_point_spec", "Geo.point_contains_point_iff", "Geo.point_contains_rect_iff", "Geo.box_contains_seriesRect_iff", "Geo.rect_contains_line_iff", "Geo.rect_contains_line_empty", "Geo.rect_contains_line_iff_onSeg", "Geo.rect_contains_poly_iff", "Geo.rect_contains_rectpoly", "Geo.seriesRect_eq_ptbox_iff", "Geo.point_contains_line_iff", "Geo.point_contains_poly_iff", "Geo.line_contains_point_iff", "Geo.line_contains_point_spec", "Geo.D4_wrong_true", "Geo.D4_wrong_false", "Geo.D5_wrong_true", "Geo.D5_wrong_false", "Geo.D13_wrong_true", "Geo.ringContainsSegment_of_avoids", "Geo.ringContainsSegment_of_avoids_all", "Geo.ringContainsSegment_false_of_avoids", "Geo.ringContainsRing_of_avoids", "Geo.ringContainsRing_of_avoids_all", "Geo.ringContainsRing_of_avoids_rect", "Geo.ringContainsLine_of_avoids", "Geo.ringIntersectsSegment_of_avoids", "Geo.ringIntersectsLine_strict_of_avoids", "Geo.ringIntersectsRing_strict_of_avoids", "Geo.poly_contains_line_of_no_contact", "Geo.poly_contains_rect_of_no_contact", "Geo.poly_contains_point_exact", "Geo.poly_contains_poly_noholes_of_no_contact", "Geo.poly_contains_exact_of_no_contact", "Geo.poly_containsPoly_closed_form", "Geo.line_contains_of_no_contact", "Geo.interiorOK_of_check", "Geo.ringContainsRing_shortcut_counterexample", "Geo.poly_contains_general_position_counterexample"],
         "trivial_sigs": set(),
@@ -89,7 +92,9 @@ PROPS = {
     },
     "C05": {
         "suites": ["c05docs", "c05obj"],
-        "level": "proof", "proof_module": "GeoProofs.Props.C05", "theorems": ["Geo.parse_fuel_sufficient", "Geo.parseTop_total", "Geo.parseTop_unmodelled_only_string_radius", "Geo.parse_extraOK", "Geo.write_some_of_extraOK", "Geo.parse_then_write_no_panic"],
+        "level": "proof", "extra_modules": [{"module": "GeoProofs.Props.LineBridge", "theorems": ["Geo.line_bridge_containsLine", "Geo.line_bridge_containsPoly"]}],
+        "translators": [{"name": "linewalk", "out": "LineGen.lean"}],
+        "proof_module": "GeoProofs.Props.C05", "theorems": ["Geo.parse_fuel_sufficient", "Geo.parseTop_total", "Geo.parseTop_unmodelled_only_string_radius", "Geo.parse_extraOK", "Geo.write_some_of_extraOK", "Geo.parse_then_write_no_panic"],
         "trivial_sigs": set(),
         "claim": "Proof on the model (Lean 4): Parse is total and its fuel is never exhausted, every parsed object has a complete extras table so the writers never index out of range, the repaired Line.ContainsLine walk terminates; all other model functions are structurally recursive. Tie: outcome correspondence (value/error/panic/timeout) under a watchdog on documents, mutations, arbitrary bytes and every method on all kind pairs. Stack depth and wall-clock are not modelled.",
         "rule": "outcomes (value / error enum / panic / timeout) of Parse on grammar-generated documents, structured mutations, arbitrary bytes, "
@@ -98,7 +103,9 @@ PROPS = {
     },
     "C06": {
         "suites": ["c06"],
-        "level": "proof", "proof_module": "GeoProofs.Props.C06", "theorems": ["Geo.render_writeV", "Geo.written_tokOK", "Geo.reparse_ok_partial", "Geo.reparse_ok_partial_lineString", "Geo.lineCoords_roundtrip", "Geo.polyCoords_roundtrip", "Geo.feature_has_properties", "Geo.members_preserved_partial", "Geo.isRectRing_rectRing", "Geo.reparse_main", "Geo.reparse_normal_form'", "Geo.reparse_normal_form", "Geo.reparse_ok", "Geo.write_addProps", "Geo.write_fixpoint", "Geo.reparse_valid", "Geo.geometry_preserved", "Geo.members_preserved", "Geo.multi_children_no_members", "Geo.circle_drops_members", "Geo.circle_written_shape", "Geo.reparse_example_feature", "Geo.reparse_example_circle", "Geo.addProps_valid", "Geo.addProps_idem", "Geo.dropFeatEx_addProps", "Geo.featExs_addProps"],
+        "level": "proof", "extra_modules": [{"module": "GeoProofs.Props.WriteBridge", "theorems": ["Geo.WriteBridge.write_unique", "Geo.WriteBridge.appendJSONPoint_bridge", "Geo.WriteBridge.appendJSONExtra_bridge", "Geo.WriteBridge.appendJSONSeries_bridge", "Geo.WriteBridge.appendJSON_bridge"]}],
+        "translators": [{"name": "writers", "out": "WriteGen.lean"}],
+        "proof_module": "GeoProofs.Props.C06", "theorems": ["Geo.render_writeV", "Geo.written_tokOK", "Geo.reparse_ok_partial", "Geo.reparse_ok_partial_lineString", "Geo.lineCoords_roundtrip", "Geo.polyCoords_roundtrip", "Geo.feature_has_properties", "Geo.members_preserved_partial", "Geo.isRectRing_rectRing", "Geo.reparse_main", "Geo.reparse_normal_form'", "Geo.reparse_normal_form", "Geo.reparse_ok", "Geo.write_addProps", "Geo.write_fixpoint", "Geo.reparse_valid", "Geo.geometry_preserved", "Geo.members_preserved", "Geo.multi_children_no_members", "Geo.circle_drops_members", "Geo.circle_written_shape", "Geo.reparse_example_feature", "Geo.reparse_example_circle", "Geo.addProps_valid", "Geo.addProps_idem", "Geo.dropFeatEx_addProps", "Geo.featExs_addProps"],
         "trivial_sigs": set(),
         "claim": "Proof on the AST model (Lean 4): every accepted finite document is accepted again from its written AST under the same options as the same object up to the normal form addProps (a Feature without properties gains an empty one), writing is a fixpoint after one step (reparse_ok, reparse_normal_form, write_addProps, write_fixpoint), positions/extras/child order/foreign members are preserved (geometry_preserved, members_preserved; a recognised Circle keeps only centre and radius: circle_drops_members); the text is the rendering of that AST (render_writeV). Trusted: text<->AST decoding and the number codec (DocOK). Tie: byte-exact correspondence of the writers and an implementation-side round-trip oracle built on encoding/json; known finding D18 (negative zero under AllowRects).",
         "rule": "grammar-generated accepted documents (9 types + Circle convention, nesting, 2-4-D and mixed positions, duplicate/escaped keys, "
@@ -108,7 +115,9 @@ PROPS = {
     },
     "C07": {
         "suites": ["c07"],
-        "level": "proof", "proof_module": "GeoProofs.Props.C07", "theorems": ["Geo.defect_rejected", "Geo.wf_accepted_partial", "Geo.wf_accepted_counterexample", "Geo.wf_decoded"],
+        "level": "proof", "extra_modules": [{"module": "GeoProofs.Props.ParseBridgeFinding", "theorems": ["Geo.ParseBridgeFinding.model_rejects", "Geo.ParseBridgeFinding.generated_accepts"]}, {"module": "GeoProofs.Props.ParseBridge", "theorems": ["Geo.ParseBridge.parseJSONPoint_bridge", "Geo.ParseBridge.parseJSONLineString_bridge", "Geo.ParseBridge.parseJSONPointCoords_bridge", "Geo.ParseBridge.parseJSONLineStringCoords_bridge", "Geo.ParseBridge.parseBBoxAndExtras_bridge", "Geo.ParseBridge.toGeometryOpts_bridge"]}],
+        "translators": [{"name": "parsers", "out": "ParseGen.lean"}],
+        "proof_module": "GeoProofs.Props.C07", "theorems": ["Geo.defect_rejected", "Geo.wf_accepted_partial", "Geo.wf_accepted_counterexample", "Geo.wf_decoded"],
         "trivial_sigs": set(),
         "claim": "Proof on the AST model (Lean 4): every document with a listed defect is rejected (defect_rejected), every well-formed document without a dimension increase is accepted and decodes to the reference reading (wf_accepted_partial, wf_decoded); the dimension-increase case is a proved counterexample = known finding D11. Tie: the harness decodes each text with encoding/json into the AST and compares accept/reject, error kind and output bytes.",
         "rule": "well-formed documents must be accepted (and decode as the reference reader says), documents with one of the listed structural "
@@ -124,7 +133,9 @@ PROPS = {
     },
     "C09": {
         "suites": ["c09"],
-        "level": "proof", "proof_module": "GeoProofs.Props.C09All", "theorems": ["Geo.within_is_contains_swapped", "Geo.feature_transparent", "Geo.feature_center", "Geo.feature_argument_transparent_leaf", "Geo.feature_argument_not_transparent_counterexample", "Geo.simplepoint_as_point_receiver", "Geo.simplepoint_as_point_argument", "Geo.simplepoint_as_point", "Geo.contains_empty_false", "Geo.empty_iff_all_leaves_empty", "Geo.contains_empty_receiver_false", "Geo.intersects_empty_false", "Geo.intersects_empty_receiver_false", "Geo.intersects_empty_false_point", "Geo.contains_implies_rect_covers_partial", "Geo.contains_implies_intersects_partial", "Geo.intersects_implies_rects_meet_partial", "Geo.intersects_empty_false_partial", "Geo.intersects_iff_atoms", "Geo.feature_argument_transparent_intersects", "Geo.intersects_iff_atoms_rect", "Geo.intersects_symm_partial", "Geo.leaf_contains_rect_covers_point_rect", "Geo.leaf_intersects_rects_meet_point_rect", "Geo.leaf_intersects_symm_point_rect", "Geo.leaf_contains_intersects_point_rect", "Geo.leaf_contains_intersects_rect_counterexample", "Geo.pr_not_empty", "Geo.point_rect_contains_implies_rect_covers", "Geo.point_rect_intersects_implies_rects_meet", "Geo.point_rect_intersects_symm", "Geo.point_rect_contains_implies_intersects", "Geo.DispatchFacts.dispatch_table_pinned", "Geo.DispatchFacts.within_forwards_to_contains", "Geo.DispatchFacts.json_wrappers", "Geo.DispatchFacts.feature_forwards", "Geo.leaf_intersects_rects_meet", "Geo.intersects_implies_rects_meet", "Geo.leaf_rects_meet_rawseries_counterexample", "Geo.leaf_contains_rect_covers", "Geo.leaf_contains_rect_covers_line_line_counterexample", "Geo.contains_implies_rect_covers", "Geo.leaf_empty_intersects_false", "Geo.intersects_empty_false_all", "Geo.intersects_iff_atoms_all", "Geo.feature_argument_transparent_intersects_all", "Geo.leaf_intersects_symm", "Geo.intersects_symm_made", "Geo.intersects_symm_valid", "Geo.leaf_intersects_exact", "Geo.intersects_exact", "Geo.leaf_contains_intersects", "Geo.leaf_contains_intersects_shortcut_counterexample", "Geo.contains_implies_intersects_valid", "Geo.mkSeries_eq_plain", "Geo.leafWF_lineString", "Geo.leafWF_polygon", "Geo.leafSymOK_polygon", "Geo.leafOK_point", "Geo.leafOK_rect", "Geo.leafOK_lineString", "Geo.leafOK_polygon", "Geo.leaf_intersects_exact_indexed", "Geo.intersects_exact_indexed"],
+        "level": "proof", "extra_modules": [{"module": "GeoProofs.Props.CollBridge", "theorems": ["Geo.CollBridge.forEach_bridge", "Geo.CollBridge.within_bridge", "Geo.CollBridge.contains_bridge", "Geo.CollBridge.intersects_bridge", "Geo.CollBridge.indexed_invisible", "Geo.CollBridge.model_solves", "Geo.CollBridge.solves_unique"]}],
+        "translators": [{"name": "collection", "out": "CollGen.lean"}],
+        "proof_module": "GeoProofs.Props.C09All", "theorems": ["Geo.within_is_contains_swapped", "Geo.feature_transparent", "Geo.feature_center", "Geo.feature_argument_transparent_leaf", "Geo.feature_argument_not_transparent_counterexample", "Geo.simplepoint_as_point_receiver", "Geo.simplepoint_as_point_argument", "Geo.simplepoint_as_point", "Geo.contains_empty_false", "Geo.empty_iff_all_leaves_empty", "Geo.contains_empty_receiver_false", "Geo.intersects_empty_false", "Geo.intersects_empty_receiver_false", "Geo.intersects_empty_false_point", "Geo.contains_implies_rect_covers_partial", "Geo.contains_implies_intersects_partial", "Geo.intersects_implies_rects_meet_partial", "Geo.intersects_empty_false_partial", "Geo.intersects_iff_atoms", "Geo.feature_argument_transparent_intersects", "Geo.intersects_iff_atoms_rect", "Geo.intersects_symm_partial", "Geo.leaf_contains_rect_covers_point_rect", "Geo.leaf_intersects_rects_meet_point_rect", "Geo.leaf_intersects_symm_point_rect", "Geo.leaf_contains_intersects_point_rect", "Geo.leaf_contains_intersects_rect_counterexample", "Geo.pr_not_empty", "Geo.point_rect_contains_implies_rect_covers", "Geo.point_rect_intersects_implies_rects_meet", "Geo.point_rect_intersects_symm", "Geo.point_rect_contains_implies_intersects", "Geo.DispatchFacts.dispatch_table_pinned", "Geo.DispatchFacts.within_forwards_to_contains", "Geo.DispatchFacts.json_wrappers", "Geo.DispatchFacts.feature_forwards", "Geo.leaf_intersects_rects_meet", "Geo.intersects_implies_rects_meet", "Geo.leaf_rects_meet_rawseries_counterexample", "Geo.leaf_contains_rect_covers", "Geo.leaf_contains_rect_covers_line_line_counterexample", "Geo.contains_implies_rect_covers", "Geo.leaf_empty_intersects_false", "Geo.intersects_empty_false_all", "Geo.intersects_iff_atoms_all", "Geo.feature_argument_transparent_intersects_all", "Geo.leaf_intersects_symm", "Geo.intersects_symm_made", "Geo.intersects_symm_valid", "Geo.leaf_intersects_exact", "Geo.intersects_exact", "Geo.leaf_contains_intersects", "Geo.leaf_contains_intersects_shortcut_counterexample", "Geo.contains_implies_intersects_valid", "Geo.mkSeries_eq_plain", "Geo.leafWF_lineString", "Geo.leafWF_polygon", "Geo.leafSymOK_polygon", "Geo.leafOK_point", "Geo.leafOK_rect", "Geo.leafOK_lineString", "Geo.leafOK_polygon", "Geo.leaf_intersects_exact_indexed", "Geo.intersects_exact_indexed"],
         "translators": [{"name": "dispatch", "out": "Dispatch.lean"}],
         "trivial_sigs": set(),
         "claim": "Proof (Lean 4) of the object-level algebra on the model: within = contains swapped, Feature/SimplePoint transparency, reduction of the algebra laws to leaf-level facts AND the leaf facts for all five leaf kinds (Props/C09Leaf.lean): Intersects implies the rectangles meet and an empty object intersects nothing (all objects), Intersects is symmetric (all objects built by the constructors, holes and invalid rings included), Contains implies the rectangle covers (every pair except LineString in LineString: D4 counterexample), Contains implies Intersects for valid leaves with arguments below 16 points (D19 counterexample above), Intersects = some pair of atoms shares a point (intersects_exact). Counterexample for Feature-of-collection as argument (D16). The dispatch bodies of all 13 types are re-extracted from the source on every run and pinned (dispatch_table_pinned). Tie: correspondence on object pairs of all kinds incl. contact configurations + implementation-side algebra oracle.",
@@ -134,7 +145,9 @@ PROPS = {
     },
     "C10": {
         "suites": ["c10"],
-        "level": "proof", "proof_module": "GeoProofs.Props.C10", "theorems": ["Geo.coll_empty_iff", "Geo.coll_numPoints_sum", "Geo.coll_rect_union", "Geo.coll_leaves", "Geo.searchChildren_spec", "Geo.mem_searchChildren", "Geo.searchChildren_sublist", "Geo.searchChildren_length", "Geo.searchChildren_nodup", "Geo.coll_methods_via_search", "Geo.coll_intersects_iff", "Geo.coll_contains_iff", "Geo.coll_withinRect_iff", "Geo.coll_withinPoint_iff", "Geo.coll_withinLine_iff", "Geo.coll_withinPoly_iff", "Geo.coll_intersectsRect_iff", "Geo.coll_intersectsPoint_iff", "Geo.coll_intersectsLine_iff", "Geo.coll_intersectsPoly_iff", "Geo.indexed_irrelevant_receiver", "Geo.indexed_irrelevant_argument", "Geo.indexed_irrelevant"],
+        "level": "proof", "extra_modules": [{"module": "GeoProofs.Props.CollBridge", "theorems": ["Geo.CollBridge.indexed_bridge", "Geo.CollBridge.children_bridge", "Geo.CollBridge.base_bridge", "Geo.CollBridge.empty_bridge", "Geo.CollBridge.rect_bridge", "Geo.CollBridge.center_bridge", "Geo.CollBridge.spatial_bridge", "Geo.CollBridge.members_bridge", "Geo.CollBridge.valid_bridge", "Geo.CollBridge.forEach_bridge", "Geo.CollBridge.search_bridge", "Geo.CollBridge.numPoints_bridge", "Geo.CollBridge.within_bridge", "Geo.CollBridge.contains_bridge", "Geo.CollBridge.intersects_bridge", "Geo.CollBridge.withinRect_bridge", "Geo.CollBridge.withinPoint_bridge", "Geo.CollBridge.withinLine_bridge", "Geo.CollBridge.withinPoly_bridge", "Geo.CollBridge.intersectsRect_bridge", "Geo.CollBridge.intersectsPoint_bridge", "Geo.CollBridge.intersectsLine_bridge", "Geo.CollBridge.intersectsPoly_bridge", "Geo.CollBridge.distance_bridge", "Geo.CollBridge.indexed_invisible", "Geo.CollBridge.collOf_ok", "Geo.CollBridge.model_solves", "Geo.CollBridge.iterate_collect", "Geo.CollBridge.eq_of_iterate_eq", "Geo.CollBridge.unique_gen", "Geo.CollBridge.solves_forEach", "Geo.CollBridge.solves_numPoints", "Geo.CollBridge.solves_unique"]}],
+        "translators": [{"name": "collection", "out": "CollGen.lean"}],
+        "proof_module": "GeoProofs.Props.C10", "theorems": ["Geo.coll_empty_iff", "Geo.coll_numPoints_sum", "Geo.coll_rect_union", "Geo.coll_leaves", "Geo.searchChildren_spec", "Geo.mem_searchChildren", "Geo.searchChildren_sublist", "Geo.searchChildren_length", "Geo.searchChildren_nodup", "Geo.coll_methods_via_search", "Geo.coll_intersects_iff", "Geo.coll_contains_iff", "Geo.coll_withinRect_iff", "Geo.coll_withinPoint_iff", "Geo.coll_withinLine_iff", "Geo.coll_withinPoly_iff", "Geo.coll_intersectsRect_iff", "Geo.coll_intersectsPoint_iff", "Geo.coll_intersectsLine_iff", "Geo.coll_intersectsPoly_iff", "Geo.indexed_irrelevant_receiver", "Geo.indexed_irrelevant_argument", "Geo.indexed_irrelevant"],
         "trivial_sigs": set(),
         "claim": "Proof (Lean 4): all composition laws of collections (intersects/contains/within*/intersects*/empty/rect/numPoints/leaves, child search as an exact filter, the child index unobservable) for arbitrary children, leaf predicates as they are. Tie: correspondence on collections of all five kinds incl. the same text under five child-index thresholds; tidwall/rtree is modelled by its contract.",
         "rule": "collections of all five kinds (0..70 children, nested, empty children) against probe objects, child searches with early stop, "
@@ -143,7 +156,9 @@ PROPS = {
     },
     "C11": {
         "suites": ["c11"],
-        "level": "proof", "proof_module": "GeoProofs.Props.C11", "theorems": ["Geo.unionBox_spec", "Geo.Box.TightOver.unique", "Geo.foldRects_tight", "Geo.coll_rect_tight", "Geo.coll_rect_tight_children", "Geo.center_spec", "Geo.Series.empty_iff", "Geo.atom_empty_iff", "Geo.empty_iff", "Geo.empty_line_iff", "Geo.empty_polygon_iff", "Geo.Pt.valid_iff", "Geo.Series.valid_iff", "Geo.Ring.valid_iff", "Geo.boxValid_iff", "Geo.valid_point_iff", "Geo.valid_point_fin", "Geo.valid_line_iff", "Geo.valid_line_iff_positions", "Geo.valid_polygon_iff", "Geo.valid_rect_iff", "Geo.coll_valid_bbox_iff", "Geo.zeroBox_inRange", "Geo.coll_valid_bbox_positions"],
+        "level": "proof", "extra_modules": [{"module": "GeoProofs.Props.SeriesBridge", "theorems": ["Geo.SeriesBridge.empty", "Geo.SeriesBridge.empty_nil", "Geo.SeriesBridge.valid", "Geo.SeriesBridge.fields"]}],
+        "translators": [{"name": "seriesmeth", "out": "SeriesMethGen.lean"}],
+        "proof_module": "GeoProofs.Props.C11", "theorems": ["Geo.unionBox_spec", "Geo.Box.TightOver.unique", "Geo.foldRects_tight", "Geo.coll_rect_tight", "Geo.coll_rect_tight_children", "Geo.center_spec", "Geo.Series.empty_iff", "Geo.atom_empty_iff", "Geo.empty_iff", "Geo.empty_line_iff", "Geo.empty_polygon_iff", "Geo.Pt.valid_iff", "Geo.Series.valid_iff", "Geo.Ring.valid_iff", "Geo.boxValid_iff", "Geo.valid_point_iff", "Geo.valid_point_fin", "Geo.valid_line_iff", "Geo.valid_line_iff_positions", "Geo.valid_polygon_iff", "Geo.valid_rect_iff", "Geo.coll_valid_bbox_iff", "Geo.zeroBox_inRange", "Geo.coll_valid_bbox_positions"],
         "trivial_sigs": set(),
         "claim": "Proof (Lean 4): series rectangle = tight box (rect_tight, bboxSpec_tight), union/collection rectangles tight over non-empty children, centre, emptiness and validity characterisations for all kinds. Known finding D15 (Polygon.Rect ignores holes outside the exterior). Tie: attribute correspondence judged against a direct min/max specification.",
         "rule": "objects of all kinds from constructors and from parsed documents on regime E: Empty/Valid/Rect/Center/NumPoints compared with the "
@@ -168,7 +183,9 @@ PROPS = {
     },
     "C17": {
         "suites": ["c17"],
-        "level": "proof", "proof_module": "GeoProofs.Props.C17", "theorems": ["Geo.render_is_json", "Geo.write_is_json", "Geo.write_type", "Geo.write_coords_depth", "Geo.nonfinite_written_as_null", "Geo.append_prefix", "Geo.featureExtra_ok", "Geo.featureExtra_writeOK", "Geo.exFeature_writeOK", "Geo.DispatchFacts.dispatch_table_pinned", "Geo.DispatchFacts.json_wrappers"],
+        "level": "proof", "extra_modules": [{"module": "GeoProofs.Props.WriteBridge", "theorems": ["Geo.WriteBridge.write_unique", "Geo.WriteBridge.appendJSONFloat_bridge", "Geo.WriteBridge.appendJSONPoint_bridge", "Geo.WriteBridge.appendJSONExtra_bridge", "Geo.WriteBridge.appendJSONExtra_panic_bridge", "Geo.WriteBridge.appendJSONSeries_bridge", "Geo.WriteBridge.Point_bridge", "Geo.WriteBridge.SimplePoint_bridge", "Geo.WriteBridge.LineString_bridge", "Geo.WriteBridge.Polygon_bridge", "Geo.WriteBridge.Rect_bridge", "Geo.WriteBridge.MultiPoint_bridge", "Geo.WriteBridge.MultiLineString_bridge", "Geo.WriteBridge.MultiPolygon_bridge", "Geo.WriteBridge.GeometryCollection_bridge", "Geo.WriteBridge.FeatureCollection_bridge", "Geo.WriteBridge.Feature_bridge", "Geo.WriteBridge.Circle_bridge", "Geo.WriteBridge.collection_bridge", "Geo.WriteBridge.appendJSON_bridge"]}],
+        "translators": [{"name": "writers", "out": "WriteGen.lean"}],
+        "proof_module": "GeoProofs.Props.C17", "theorems": ["Geo.render_is_json", "Geo.write_is_json", "Geo.write_type", "Geo.write_coords_depth", "Geo.nonfinite_written_as_null", "Geo.append_prefix", "Geo.featureExtra_ok", "Geo.featureExtra_writeOK", "Geo.exFeature_writeOK", "Geo.DispatchFacts.dispatch_table_pinned", "Geo.DispatchFacts.json_wrappers"],
         "translators": [{"name": "dispatch", "out": "Dispatch.lean"}],
         "trivial_sigs": set(),
         "claim": "Proof on the model (Lean 4): every object satisfying WriteOK is written as text of the RFC 8259 object grammar with the right type name and coordinate depth, non-finite ordinates as null, NewFeature's member sanitising keeps that invariant; JSON/String/MarshalJSON wrappers pinned from the source. Tie: byte-exact correspondence on constructor-built objects with special floats and member texts; aliasing of AppendJSON(prefix) checked on the implementation.",
